@@ -365,6 +365,30 @@ def pick_paths(paths, n, rnd):
     return out, len(groups)
 
 
+def pair_paths():
+    """Behaviours of Ctl.tla in which two established sessions each have one event pending in the SAME server round
+    (a request of every kind, or a disconnect), in both slot orders: what one session does must not leak into the
+    other session's reply or into the owner's data path.  They are behaviours of the specification like the ones TLC
+    prints (every recorded execution is validated against CtlTrace), chosen directly because the per-transition cover
+    of the state graph contains each transition once, not each pair."""
+    evs = ["get", "all", "bad", "odd", "drop"]
+    out = []
+    for k1 in evs:
+        for k2 in evs:
+            for first in (1, 2):
+                p = ["conn:1:-:-", "poll:0:-:-", "conn:2:-:-", "poll:0:-:-"]
+                e = {1: k1, 2: k2}
+                for s_ in ((1, 2) if first == 1 else (2, 1)):
+                    p.append("drop:%d:-:-" % s_ if e[s_] == "drop" else "send:%d:%s:-" % (s_, e[s_]))
+                p.append("poll:0:-:-")
+                for s_ in (1, 2):
+                    if e[s_] != "drop":
+                        p.append("recv:%d:-:-" % s_)
+                p += ["poll:0:-:-", "asend:0:-:-", "poll:0:-:-"]
+                out.append(tuple(p))
+    return out
+
+
 # ============================================================ scripts =============
 BAD_TYPES = [1, 2, 4, 5, 6, 99, -1, 2147483647, -2147483648, 256, 65536]
 
@@ -829,6 +853,15 @@ def check(pid, tier, seed):
     for i, p in enumerate(chosen):
         sc = order[i % len(order)]
         execs.append((i + 1, script_for(p, i + 1, sc, info[sc], creds, rnd, info[sc]["msgsz"])))
+    # two sessions with events pending in the same round: on an established connection of every transport (2 x quick, 6 x thorough)
+    pairs = pair_paths()
+    est = [sc for sc in scs if sc[1] in ("cli", "acc") and sc[2] in ("small", "big")]
+    for rep_ in range(1 if tier == "quick" else 3):
+        for j, p in enumerate(pairs):
+            for sc in (est[(j + rep_) % len(est)], est[(j * 7 + 3 + rep_) % len(est)]):
+                xid = len(execs) + 1
+                execs.append((xid, script_for(p, xid, sc, info[sc], creds, rnd, info[sc]["msgsz"])))
+                chosen.append(p)
 
     # ---- real library, trace validation ---------------------------------------------------
     t1 = time.time()
